@@ -479,7 +479,9 @@ class World:
                 self.cur_op = saved_op
         one_shot = any(hasattr(v, '__next__') for _, v in argvals)     # a consumed iterator cannot
         if how not in ('mut', 'iop') and rec['name'] not in cat.RANDOM and tag != 'raise:CallTimeout' \
-                and not one_shot:                                      # be delivered a second time
+                and not one_shot and not rec.get('fault_unjudged'):   # be delivered a second time;
+            # a call that was given a value of a type its parameter does not accept is not
+            # remembered either: how it fails on that value is not the property's business
             inputs = {'recv': recv, 'args': args, 'kwargs': kwargs}
             self.history.append({'rec': rec, 'inputs': inputs,
                                  'insnap': values.snapshot([recv, args, kwargs]),
@@ -539,7 +541,8 @@ class World:
         inp = ent['inputs']
         if use_copy:
             leaves = values.array_leaves([inp['recv'], inp['args'], list(inp['kwargs'].values())])
-            if all(a.flags['C_CONTIGUOUS'] and a.base is None for a in leaves):
+            if all(a.flags['C_CONTIGUOUS'] and a.base is None and a.flags.writeable
+                   and type(a) is np.ndarray for a in leaves):        # only faithful copies count
                 inp = copy.deepcopy(inp)
                 self.probe('p_redelivered_on_copies')
         fn = self._callable(rec, inp['recv'])
